@@ -42,6 +42,9 @@ Spec == Init /\ [][Next]_vars
 MuHat == IF fam = 1 THEN MuHat1(s, b, n, lo) ELSE MuHat2(s, b, n, lo)
 Terms(m) == IF fam = 1 THEN << [k |-> "pois", n |-> n, lam |-> Rate1(m, s, b)] >>
             ELSE [i \in 1..2 |-> [k |-> "pois", n |-> N2(n)[i], lam |-> Rate2(m, s, b, i)]]
+\* the same likelihood evaluated on an Asimov dataset = the expectation at mu_A (exact: no nuisance parameters)
+ATerms(m, muA) == IF fam = 1 THEN << [k |-> "pois", n |-> Rate1(muA, s, b), lam |-> Rate1(m, s, b)] >>
+                  ELSE [i \in 1..2 |-> [k |-> "pois", n |-> Rate2(muA, s, b, i), lam |-> Rate2(m, s, b, i)]]
 \* sanity of the closed form on the model itself: muhat is feasible and, when interior, solves the score equation
 Feasible == RLe(lo, MuHat) /\ RLe(MuHat, Hi)
 ScoreZeroWhenInterior ==
@@ -52,6 +55,9 @@ Case == [fam |-> fam, s |-> s, b |-> b, n |-> n, mu |-> mu, lo |-> lo, hi |-> Hi
          bkg |-> IF fam = 1 THEN <<b>> ELSE B2(b), sig |-> IF fam = 1 THEN <<s>> ELSE [i \in 1..2 |-> RMul(RDiv(s, b), B2(b)[i])],
          obs |-> IF fam = 1 THEN <<n>> ELSE N2(n),
          terms_hat |-> Terms(MuHat), terms_mu |-> Terms(Clip(mu, lo)), terms_0 |-> Terms(Clip(RZero, lo)),
+         \* on Asimov data generated at mu_A the estimate is mu_A itself (clipped): terms at the tested mu and at the estimate
+         a0_terms_mu |-> ATerms(Clip(mu, lo), RZero), a0_terms_hat |-> ATerms(Clip(RZero, lo), RZero),
+         a1_terms_0 |-> ATerms(Clip(RZero, lo), ROne), a1_terms_hat |-> ATerms(ROne, ROne),
          \* Asimov data at the background-only hypothesis (mu = 0) and at mu = 1: the expectation itself
          asimov0 |-> IF fam = 1 THEN <<b>> ELSE B2(b),
          asimov1 |-> IF fam = 1 THEN <<Rate1(ROne, s, b)>> ELSE [i \in 1..2 |-> Rate2(ROne, s, b, i)]]
